@@ -232,6 +232,11 @@ def corpus():
          'grads': [{'k': 'ext', 'delay': 3, 'tt': [0, 10, 20], 'wf': [0, 200000, 0]},
                    {'k': 'arb', 'delay': 1, 'wf': [10000, 30000, 50000, 40000, 20000, 5000], 'first': 0, 'last': 0},
                    dict(t, amp=-100000, delay=0)]},
+        # first/last selection by exact float equality (2e-05 + 1.2e-05 != 3.2e-05): both inputs end at 32 us
+        {'stream': 'corpus', 'sys': {'mg': 1000000, 'ms': 5000000000, 'r': 4}, 'ov': {'mg': 0, 'ms': 0},
+         'grads': [{'k': 'arb', 'delay': 5, 'wf': [-3728, -6430, 2653], 'first': 0, 'last': 0},
+                   {'k': 'arb', 'delay': 0, 'wf': [2621, 4544, -4180, -6977, -4147, -3904, 4092, 757],
+                    'first': 0, 'last': 1851}]},
     ]
     return cs
 
